@@ -1,6 +1,7 @@
 package props
 
 import (
+	"fmt"
 	"strings"
 
 	"verif/mc/engine"
@@ -19,7 +20,7 @@ func (c06) ID() string { return "C06" }
 func (c06) Meta(tier string) engine.Meta {
 	return engine.Meta{
 		Level: "model_checking",
-		Rule: "type-directed enumeration over the effects alphabet: tracer calls tr(i, v) (numbered in source order) and poisoned terms ([0][9], 1 % 0, m[\"absent\"]) in every operand position of if, ?:, &&, ||, user-registered lazy and / or / second / twice, strict calls (+, max, not, id), list / map / object literals, subscripts, and their nestings (thunks that call lazy functions). Oracle: the ordered host-call trace and the outcome class predicted by the reference evaluator (condition once, selected operand only, strict operands once, left to right, key before value), on 4 back ends. non-trivial = at least one tracer and one lazy construct or literal",
+		Rule: "type-directed enumeration over the effects alphabet: tracer calls tr(i, v) (numbered in source order) and poisoned terms ([0][9], 1 % 0, m[\"absent\"]) in every operand position of if, ?:, &&, ||, user-registered lazy and / or / second / twice, strict calls (+, max, not, id), list / map / object literals, subscripts, their nestings (thunks that call lazy functions), and dynamic calls through strict and lazy function values (callee expression first, then the arguments in order). Oracle: the ordered host-call trace and the outcome class predicted by the reference evaluator (condition once, selected operand only, strict operands once, left to right, key before value), on 4 back ends. non-trivial = at least one tracer and one lazy construct or literal",
 		Bound: "depth 2 in full (quick: one nested operand at depth 2; thorough adds depth 3 with one nested depth-2 operand)",
 		Assumptions: []string{"host functions observe evaluation only through their own invocation; twice() evaluates its operand two times by definition"},
 	}
@@ -126,6 +127,43 @@ func (c06) Generate(tier string, yield func(*engine.Case) bool) {
 	if !ok {
 		return
 	}
+	// dynamic calls: the callee is an expression yielding a (strict or lazy) function value
+	{
+		funs := real.StdHost().EnvFuns()
+		for _, cv := range []bool{true, false} {
+			iv := 0.0
+			if !cv {
+				iv = 1
+			}
+			denv := real.EnvSpec{Rep: "raw", Binds: []real.Binding{
+				{Name: "c", V: ref.BoolV(cv)}, {Name: "i", V: ref.NumV(iv)}, {Name: "n", V: ref.NumV(7)},
+				{Name: "f", V: funs["f"]}, {Name: "g", V: funs["g"]}, {Name: "h2", V: funs["h2"]}, {Name: "lz", V: funs["lz"]},
+			}}
+			v, num := gen.VarT, gen.NumT
+			tr := func(x float64) *gen.Term { return trT(num(x)) }
+			pick := func() *gen.Term { return gen.CallT("if", v("c"), v("f"), v("g")) }
+			sel := func(a, b string) *gen.Term { return gen.SubT(gen.ListT(v(a), v(b)), v("i")) }
+			poison := gen.SubT(gen.ListT(num(0)), num(9))
+			for _, t := range []*gen.Term{
+				gen.DCallT(pick(), tr(10)),
+				gen.Infix("+", gen.DCallT(sel("f", "g"), tr(2)), gen.DCallT(sel("g", "f"), tr(3))),
+				gen.DCallT(gen.CallT("if", v("c"), v("h2"), v("h2")), tr(1), tr(2)),
+				gen.DCallT(gen.SubT(gen.ListT(v("h2")), num(0)), tr(3), gen.DCallT(sel("f", "g"), tr(4))),
+				gen.DCallT(sel("h2", "h2"), gen.DCallT(pick(), tr(1)), trT(v("n"))),
+				gen.DCallT(gen.CallT("if", v("c"), v("lz"), v("lz")), tr(1), tr(2)),
+				gen.DCallT(gen.SubT(gen.ListT(v("lz")), num(0)), poison, tr(5)),
+				gen.DCallT(gen.SubT(gen.ListT(v("lz")), num(0)), tr(5), poison),
+				gen.DCallT(gen.SubT(gen.ListT(v("h2")), num(0)), poison, tr(5)),
+				gen.DCallT(gen.CallT("second", tr(1), v("h2")), tr(2), gen.CallT("twice", tr(3))),
+				gen.DCallT(gen.CallT("tr", num(0), v("f")), gen.DCallT(gen.CallT("tr", num(0), v("g")), tr(9))),
+			} {
+				n := 0
+				if ok && !yield(progCase("dynamic-calls", renumber(t, &n), denv, fmt.Sprintf("c=%v", cv))) {
+					ok = false
+				}
+			}
+		}
+	}
 	// nested lazies: a hand-built family of thunks calling lazy functions, three levels deep
 	tb, fb := trT(gen.BoolT(true)), trT(gen.BoolT(false))
 	n1, pz := trT(gen.NumT(1)), gen.Infix("%", gen.NumT(1), gen.NumT(0))
@@ -143,8 +181,9 @@ func (c06) Generate(tier string, yield func(*engine.Case) bool) {
 }
 
 func (c06) Run(c *engine.Case) *engine.Result {
-	d := loadProg(c)
 	h := real.StdHost()
+	h.EnvFuns() // function-typed environment bindings resolve to this host's functions
+	d := loadProg(c)
 	p := observe(d.Term, d.Env, h, real.Backends, false)
 	res := &engine.Result{Execs: p.Execs, Outcome: p.outcomeSummary() + " trace=" + strings.Join(p.RefTrace, ";")}
 	res.NonTrivial = strings.Contains(p.Src, "tr(") && d.Term.Depth() >= 1
